@@ -146,9 +146,9 @@ type world struct {
 	logs     string
 	rotSeq   int
 	mu       sync.Mutex
-	written  map[int]int  // line id -> file index it was written to
-	gen      map[int]int  // file index -> truncation generation
-	lineGen  map[int]int  // line id -> truncation generation of its file at write time
+	written  map[int]int    // line id -> file index it was written to
+	gen      map[int]int    // file index -> truncation generation
+	lineGen  map[int]int    // line id -> truncation generation of its file at write time
 	lineIno  map[int]uint64 // line id -> inode of the file it was written to
 	lineStr  map[int]string // line id -> stream
 	hadTrunc bool
@@ -251,7 +251,7 @@ type inputWrap struct {
 }
 
 func (w *inputWrap) Start(c pipeline.AnyConfig, p *pipeline.InputPluginParams) { w.real.Start(c, p) }
-func (w *inputWrap) Stop()                                                    { w.real.Stop() }
+func (w *inputWrap) Stop()                                                     { w.real.Stop() }
 func (w *inputWrap) PassEvent(e *pipeline.Event) bool                          { return w.real.PassEvent(e) }
 func (w *inputWrap) Commit(e *pipeline.Event) {
 	w.real.Commit(e)
@@ -277,7 +277,7 @@ func (a *stallAction) Do(e *pipeline.Event) pipeline.ActionResult {
 }
 
 type run struct {
-	holdFrom  int           // >0: sends carrying an id >= holdFrom block until holdCh is closed
+	holdFrom  int // >0: sends carrying an id >= holdFrom block until holdCh is closed
 	holdCh    chan struct{}
 	p         *pipeline.Pipeline
 	mu        sync.Mutex
@@ -663,14 +663,17 @@ func TestC03CrashRestart(t *testing.T) { prop.CrashFile = true; prop.Check(t) }
 // lines are appended. "After a truncation file.d keeps running, starts the file over and delivers
 // everything written after the truncation."
 type TruncCase struct {
-	PhaseA    []Line `json:"phase_a"`
-	Held      int    `json:"held"` // acknowledgements of the last Held phase-A lines are withheld across the truncation
-	ReleaseMs int    `json:"release_ms"` // pause between truncation and release of the acknowledgements
-	GapMs     int    `json:"gap_ms"`     // pause between release and phase B
-	PhaseB    []Line `json:"phase_b"`
-	Workers   int    `json:"workers"`
-	BatchCount int   `json:"batch_count"`
-	ReadBuf   int    `json:"read_buf"`
+	// PrevRun: lines written, delivered and acknowledged in an EARLIER run that was stopped before this
+	// one (so this run starts from a persisted offsets file); their ids are 1001..
+	PrevRun    []Line `json:"prev_run,omitempty"`
+	PhaseA     []Line `json:"phase_a"`
+	Held       int    `json:"held"`       // acknowledgements of the last Held phase-A lines are withheld across the truncation
+	ReleaseMs  int    `json:"release_ms"` // pause between truncation and release of the acknowledgements
+	GapMs      int    `json:"gap_ms"`     // pause between release and phase B
+	PhaseB     []Line `json:"phase_b"`
+	Workers    int    `json:"workers"`
+	BatchCount int    `json:"batch_count"`
+	ReadBuf    int    `json:"read_buf"`
 }
 
 func genTrunc(t *rapid.T) TruncCase {
@@ -689,6 +692,11 @@ func genTrunc(t *rapid.T) TruncCase {
 		id++
 	}
 	c.Held = rapid.IntRange(0, min(3, na)).Draw(t, "held")
+	if rapid.IntRange(0, 2).Draw(t, "prev_run") == 0 {
+		for i, n := 0, rapid.IntRange(1, 8).Draw(t, "nprev"); i < n; i++ {
+			c.PrevRun = append(c.PrevRun, Line{ID: 1001 + i, Stream: streamNames[rapid.IntRange(0, ns-1).Draw(t, "sp")]})
+		}
+	}
 	nb := rapid.IntRange(1, 8).Draw(t, "nb")
 	for i := 0; i < nb; i++ {
 		c.PhaseB = append(c.PhaseB, Line{ID: id, Stream: streamNames[rapid.IntRange(0, ns-1).Draw(t, "sb")]})
@@ -713,6 +721,45 @@ func runTrunc(c TruncCase) *vkit.Outcome {
 	holdFrom := 0
 	if c.Held > 0 {
 		holdFrom = c.PhaseA[len(c.PhaseA)-c.Held].ID
+	}
+	if len(c.PrevRun) > 0 {
+		// an earlier run reads and acknowledges the first lines and is stopped (offsets persisted)
+		// (the plugin refuses to use one offsets file twice in a process: the restart takes a copy)
+		r0, err := startRun(cc, w, filepath.Join(dir, "offsets-prev.yaml"))
+		if err != nil {
+			o.Failf(P, "config-rejected", "%v", err)
+			return o
+		}
+		w.apply(Step{Op: "append", File: 0, Lines: c.PrevRun}, true)
+		lastProgress, lastN := time.Now(), -1
+		for {
+			r0.mu.Lock()
+			n := 0
+			for _, l := range c.PrevRun {
+				if r0.delivered[l.ID] > 0 {
+					n++
+				}
+			}
+			r0.mu.Unlock()
+			if n == len(c.PrevRun) || time.Since(lastProgress) > 10*time.Second {
+				break
+			}
+			if n != lastN {
+				lastN, lastProgress = n, time.Now()
+			}
+			time.Sleep(3 * time.Millisecond)
+		}
+		time.Sleep(30 * time.Millisecond) // acknowledgements reach the input, the async saver runs
+		if len(fdkit.TakeLoggedPanics()) > 0 {
+			o.Class("previous-run-ended-itself")
+			return o
+		}
+		r0.stop()
+		if !copyFile(filepath.Join(dir, "offsets-prev.yaml"), filepath.Join(dir, "offsets.yaml")) {
+			o.Class("previous-run-left-no-offsets-file")
+			return o
+		}
+		o.Class("started-from-persisted-offsets")
 	}
 	r, err := startRunHold(cc, w, filepath.Join(dir, "offsets.yaml"), holdFrom)
 	if err != nil {
